@@ -47,7 +47,10 @@ where
             for (medoid, cluster_data) in std::mem::take(current_clusters).into_iter() {
                 // not enough data for clustering, simply propagate it to the next tier
                 if cluster_data.len() < K_PER_TIER {
-                    current_tier_clusters.insert(medoid.clone().expect("should be set"), cluster_data.clone());
+                    let Some(medoid_key) = medoid.clone().or_else(|| cluster_data.first().cloned()) else {
+                        continue;
+                    };
+                    current_tier_clusters.insert(medoid_key, cluster_data.clone());
                     next_tier_clusters.push((medoid, cluster_data));
                     continue;
                 } else {
